@@ -43,7 +43,7 @@ def metaVal (m : Row) : Val := rowVal m
 
 /-! ### base class: default and matrix block parsers -/
 
-def matrixVal (b : BlockDef) (sz : String) (blocks : List BlockDef) (raws : List RawBlock)
+def matrixVal (b : BlockDef) (sz : String) (blocks : List BlockDef) (look : String → Option RawBlock)
     (r : RawBlock) : Option Val :=
   -- `parser(data, *params)` with the signature `(data, lower_upper, type="")`
   match r.params with
@@ -54,22 +54,30 @@ def matrixVal (b : BlockDef) (sz : String) (blocks : List BlockDef) (raws : List
     let rows := rowsOf b 81 r
     let lines := rows.map matLineOf
     let sizeRows : Option Nat :=
-      match blocks.find? (·.marker = sz), rawOf raws sz with
+      match blocks.find? (·.marker = sz), look sz with
       | some sb, some sr => some (rowsOf sb 81 sr).length
       | _, _ => Option.none
     (matrixOf (triOf lu) sizeRows lines).map fun M =>
       .dict [("matrix", .mat M), ("type", .cell (.str typ))]
 
-/-- `self.data` of a parser that only uses the factory parsers -/
-def assembleBase (blocks : List BlockDef) (raws : List RawBlock) : Option (List (String × Val)) :=
-  blocks.foldlM (fun acc b =>
-    match rawOf raws b.marker with
-    | Option.none => some acc
-    | some r =>
-      match b.kind with
-      | .dflt => some (dset acc b.marker (.dict (columns b.fields (rowsOf b 81 r))))
-      | .matrix sz => (matrixVal b sz blocks raws r).map fun v => dset acc b.marker v
-      | .custom _ => Option.none) []
+/-- what the factory parser of block `b` returns for the raw block `r` (`look` finds the raw block
+of another marker: the matrix parsers read the size block) -/
+def blockVal (blocks : List BlockDef) (look : String → Option RawBlock) (b : BlockDef) (r : RawBlock) : Option Val :=
+  match b.kind with
+  | .dflt => some (.dict (columns b.fields (rowsOf b 81 r)))
+  | .matrix sz => matrixVal b sz blocks look r
+  | .custom _ => Option.none
+
+/-- one step of the loop over `self.sinex_blocks` in `read_data` -/
+def baseStep (blocks : List BlockDef) (look : String → Option RawBlock) (acc : List (String × Val)) (b : BlockDef) :
+    Option (List (String × Val)) :=
+  match look b.marker with
+  | Option.none => some acc
+  | some r => (blockVal blocks look b r).map fun v => dset acc b.marker v
+
+/-- `self.data` of a parser that only uses the factory parsers; `look m` = `self._sinex.get(m)` -/
+def assembleBase (blocks : List BlockDef) (look : String → Option RawBlock) : Option (List (String × Val)) :=
+  blocks.foldlM (baseStep blocks look) []
 
 /-! ### sinex_site -/
 
@@ -98,11 +106,11 @@ def entryName (qual : String) : String :=
   | [_, n] => n
   | _ => qual
 
-def assembleSite (blocks : List BlockDef) (raws : List RawBlock) : Option Val := do
+def assembleSite (blocks : List BlockDef) (look : String → Option RawBlock) : Option Val := do
   let mut T : SiteTable := []
   let mut frame : Option Str := Option.none
   for b in blocks do
-    match rawOf raws b.marker, b.kind with
+    match look b.marker, b.kind with
     | some r, .custom q =>
       let rows := rowsOf b 81 r
       let e := entryName q
@@ -132,10 +140,10 @@ def assembleSite (blocks : List BlockDef) (raws : List RawBlock) : Option Val :=
 
 def dropSiteCode (r : Row) : Row := r.filter (·.1 ≠ "site_code")
 
-def assembleDisc (blocks : List BlockDef) (raws : List RawBlock) : Option Val := do
+def assembleDisc (blocks : List BlockDef) (look : String → Option RawBlock) : Option Val := do
   let mut T : SiteTable := []
   for b in blocks do
-    match rawOf raws b.marker, b.kind with
+    match look b.marker, b.kind with
     | some r, .custom q =>
       T := regroup false (entryName q) siteKey dropSiteCode T (rowsOf b 81 r)
     | some _, _ => Option.none
@@ -147,10 +155,10 @@ def assembleDisc (blocks : List BlockDef) (raws : List RawBlock) : Option Val :=
 /-- `dict.update` of cell dictionaries -/
 def updateRow (old new : Row) : Row := new.foldl (fun d (k, c) => dset d k c) old
 
-def assembleTro (blocks : List BlockDef) (raws : List RawBlock) : Option (List (String × Val)) := do
+def assembleTro (blocks : List BlockDef) (look : String → Option RawBlock) : Option (List (String × Val)) := do
   let mut D : List (String × Val) := []
   for b in blocks do
-    match rawOf raws b.marker with
+    match look b.marker with
     | Option.none => pure ()
     | some r =>
       let rows := rowsOf b 81 r
@@ -173,5 +181,135 @@ def assembleTro (blocks : List BlockDef) (raws : List RawBlock) : Option (List (
             D := dset D sta (rowVal (updateRow old rest))
         else Option.none
   pure D
+
+/-! ### sinex_tms -/
+
+/-- `SinexTmsParser.parse_lines`, fixed-width mode: the last field ends at the end of the longest
+line of the block (`max_char`, which counts the line terminator) instead of column 81 -/
+def rowsOfTms (b : BlockDef) (r : RawBlock) : List Row := parseLines b.fields (maxChar r.lines) r.lines
+
+/-- `SinexTmsParser.parse_lines`, whitespace mode (`fields[0].converter == "list"`):
+`np.genfromtxt(lines, delimiter=None, dtype=None, autostrip=True, comments=None)` cuts every line at
+runs of whitespace, skips lines without a token and raises when a line has another number of
+tokens than the first one -/
+def wsRows (lines : List Str) : Option (List (List Str)) :=
+  let rows := (lines.map split).filter (fun r => !r.isEmpty)
+  if rows.all (fun r => r.length == (rows.headD []).length) then some rows else Option.none
+
+/-- the `j`-th token of every row -/
+def column (j : Nat) (rows : List (List Str)) : List Str := rows.map (·.getD j [])
+
+/-- `data.T` in `parse_timeseries_data` (after `np.array(data.tolist())`, with one row per record — also
+for a single column, see fix e19789d): one list per column, as many columns as the first record has tokens -/
+def wsColumns (rows : List (List Str)) : List (List Str) :=
+  (List.range (rows.headD []).length).map fun j => column j rows
+
+/-- column names of `parse_timeseries_data` that stay text -/
+def dtypeStr : List Str := ["YYYY-MM-DD".toList, "YYYY-DDD".toList]
+
+/-- `col.astype(str | float)`.  Domain of the model: a text column holds tokens that are not numbers
+(NumPy would re-print a number), a float column holds decimal numbers (`none`: `astype(float)`
+raises on other text; `nan`, `inf`, `1_0`, `0x10` are outside the model). -/
+def tmsCol (name : Str) (col : List Str) : Option Val :=
+  if dtypeStr.contains name then
+    (if col.all (fun t => (parseFloat t).isNone) then some (.col (col.map Cell.str)) else Option.none)
+  else (col.mapM parseFloat).map fun qs => .col (qs.map fun q => Cell.flt (some q))
+
+/-- `parse_timeseries_data`: `zip(names, data.T)`, key = lower-cased name -/
+def tmsData (names : List Str) (lines : List Str) : Option (List (String × Val)) :=
+  (wsRows lines).bind fun rows =>
+    (names.zip (wsColumns rows)).foldlM
+      (fun D (nc : Str × List Str) => (tmsCol nc.1 nc.2).map fun v => dset D (asString (lower nc.1)) v) []
+
+/-- `add_dict["antenna_type"], add_dict["radome_type"] = d["antenna_type"].split()` (exactly two words) -/
+def antennaRowTms (r : Row) : Option Row :=
+  match split (cellStr (lookup r "antenna_type")) with
+  | [a, rad] =>
+    some ((r.map fun (k, c) => if k = "antenna_type" then (k, Cell.str a) else (k, c)) ++ [("radome_type", .str rad)])
+  | _ => Option.none
+
+/-- `parse_file_reference`: `{d[0].split()[0].lower(): d[1]}` per row (`none` = `IndexError`) -/
+def fileRefTms (rows : List Row) : Option (List (String × Val)) :=
+  rows.foldlM (fun D r =>
+    match split (cellStr ((r.getD 0 ("", .none)).2)) with
+    | [] => Option.none
+    | w :: _ => some (dset D (asString (lower w)) (.cell ((r.getD 1 ("", .none)).2)))) []
+
+/-- `self.data["timeseries_columns"]["name"]` (`none` = `KeyError`) -/
+def tmsNames (D : List (String × Val)) : Option (List Str) :=
+  match dget? D "timeseries_columns" with
+  | some (.dict kvs) =>
+    match dget? kvs "name" with
+    | some (.col cs) => some (cs.map cellStr)
+    | _ => Option.none
+  | _ => Option.none
+
+/-- `self.data.setdefault(key, list())` followed by `.append` of every row -/
+def appendRows (D : List (String × Val)) (key : String) (rows : List Row) : List (String × Val) :=
+  let old : List Val := match dget? D key with | some (.list vs) => vs | _ => []
+  dset D key (.list (old ++ rows.map rowVal))
+
+/-- one block parser of `SinexTmsParser` applied to `self.data` -/
+def tmsStep (look : String → Option RawBlock) (D : List (String × Val)) (b : BlockDef) : Option (List (String × Val)) :=
+  match look b.marker, b.kind with
+  | Option.none, _ => some D
+  | some r, .custom q =>
+    let e := entryName q
+    if e = "timeseries_data" then
+      (tmsNames D).bind fun names => (tmsData names r.lines).map fun d =>
+        let old : List (String × Val) := match dget? D "timeseries_data" with | some (.dict kvs) => kvs | _ => []
+        dset D "timeseries_data" (.dict (d.foldl (fun acc kv => dset acc kv.1 kv.2) old))
+    else
+      let rows := rowsOfTms b r
+      if e = "file_reference" then
+        (fileRefTms rows).map fun d =>
+          let old : List (String × Val) := match dget? D "file_reference" with | some (.dict kvs) => kvs | _ => []
+          dset D "file_reference" (.dict (d.foldl (fun acc kv => dset acc kv.1 kv.2) old))
+      else if e = "site_antenna" then (rows.mapM antennaRowTms).map fun rows' => appendRows D e rows'
+      else if e = "site_id" ∨ e = "site_receiver" ∨ e = "site_eccentricity" then some (appendRows D e rows)
+      else if e = "timeseries_ref_coordinate" then
+        match rows with
+        | [row] => some (dset D "ref_coordinate" (rowVal row))       -- `data.item()`: exactly one record
+        | _ => Option.none
+      else if e = "timeseries_columns" then some (dset D e (.dict (columns b.fields rows)))
+      else Option.none
+  | some _, _ => Option.none
+
+/-- `self.data` of `SinexTmsParser` -/
+def assembleTms (blocks : List BlockDef) (look : String → Option RawBlock) : Option (List (String × Val)) :=
+  blocks.foldlM (tmsStep look) []
+
+/-! ### whole files -/
+
+structure Result where
+  hdr : Row
+  data : Val
+  deriving Inhabited
+
+/-- `parser.parse()`: header line, `parse_blocks`, then the block parsers in `setup_parser()` order;
+`assemble` gets `self._sinex.get` -/
+def parseWith (tag : Str) (header : List FieldDef) (headerTotal : Str → Nat) (blocks : List BlockDef)
+    (assemble : (String → Option RawBlock) → Option Val) (text : Str) : Option Result :=
+  (readRaw tag header headerTotal blocks text).bind fun p => (assemble (rawOf p.raws)).map fun v => ⟨p.hdr, v⟩
+
+def snxTag : Str := "%=SNX".toList
+def tmsTag : Str := "%=TMS".toList
+
+/-- a base-class parser declaring `blocks` -/
+def parseBaseFile (header : List FieldDef) (blocks : List BlockDef) (text : Str) : Option Result :=
+  parseWith snxTag header (fun _ => 81) blocks (fun look => (assembleBase blocks look).map .dict) text
+
+def parseSiteFile (header : List FieldDef) (blocks : List BlockDef) (text : Str) : Option Result :=
+  parseWith snxTag header (fun _ => 81) blocks (assembleSite blocks) text
+
+def parseDiscFile (header : List FieldDef) (blocks : List BlockDef) (text : Str) : Option Result :=
+  parseWith snxTag header (fun _ => 81) blocks (assembleDisc blocks) text
+
+def parseTroFile (header : List FieldDef) (blocks : List BlockDef) (text : Str) : Option Result :=
+  parseWith snxTag header (fun _ => 81) blocks (fun look => (assembleTro blocks look).map .dict) text
+
+/-- `SinexTmsParser`: the header's last field ends at the end of the header line (terminator counted) -/
+def parseTmsFile (header : List FieldDef) (blocks : List BlockDef) (text : Str) : Option Result :=
+  parseWith tmsTag header (fun h => h.length + 1) blocks (fun look => (assembleTms blocks look).map .dict) text
 
 end Midgard.Sinex
